@@ -1,21 +1,32 @@
 ---------------------------- MODULE MCEvmValue ----------------------------
 EXTENDS EvmValue
 \* ---- design-level universes (small numbers)
+E1 == {"E1"}
 E2 == {"E1", "E2"}
 E3 == {"E1", "E2", "E3"}
+K1 == {"K1"}
 K2 == {"K1", "K2"}
 K3 == {"K1", "K2", "K3"}
 A(E, K) == E \cup K \cup {"Z", "F", "N", "Q"}
 BalSmall(E, K) == [a \in A(E, K) |-> CASE a \in E -> 14 [] a \in K -> 3 [] a = "Q" -> 13 [] a = "Z" -> 1 [] OTHER -> 0]
+BalSmall11 == BalSmall(E1, K1)
 BalSmall22 == BalSmall(E2, K2)
+BalSmall23 == BalSmall(E2, K3)
+BalSmall21 == BalSmall(E2, K1)
 BalSmall32 == BalSmall(E3, K2)
 BalSmall33 == BalSmall(E3, K3)
 WqOf(E, K) == [k \in A(E, K) |-> IF k = "K1" THEN 2 ELSE 0]
+Wq11 == WqOf(E1, K1)
 Wq22 == WqOf(E2, K2)
+Wq23 == WqOf(E2, K3)
+Wq21 == WqOf(E2, K1)
 Wq32 == WqOf(E3, K2)
 Wq33 == WqOf(E3, K3)
 LockOf(E, K) == [k \in A(E, K) |-> CASE k = "K1" -> "unlocked" [] k = "K2" -> "locked" [] OTHER -> "none"]
+Lock11 == LockOf(E1, K1)
 Lock22 == LockOf(E2, K2)
+Lock23 == LockOf(E2, K3)
+Lock21 == LockOf(E2, K1)
 Lock32 == LockOf(E3, K2)
 Lock33 == LockOf(E3, K3)
 
@@ -33,7 +44,11 @@ PFAll == {0, 65535, 65536}
 PFEdge == {0, 65536}
 
 TKCall == {"call"}
+TKCallX == {"call", "xsend"}
 TKBasic == {"call", "create"}
+TKBasicIn == {"call", "create", "inbound"}
+TKGas == {"call", "sdata", "kquai", "xsend"}
+TKMulti == {"call", "create"}
 TKAll == {"call", "create", "sdata", "kquai", "xsend", "inbound"}
 OKNone == {}
 OKEtx == {"ETX"}
@@ -41,8 +56,10 @@ OKOpc == {"ETX", "CONVERT"}
 OKAll == {"ETX", "CONVERT", "XCALL", "UNWRAP", "CLAIM"}
 DAll == {"inscope", "elig", "inelig", "qiother", "qiown"}
 DSome == {"elig", "inelig", "qiown"}
+DSome2 == {"elig", "inelig"}
 AAll == {"zero", "minm1", "min", "bal", "balp1", "max"}
 ASome == {"zero", "min", "balp1", "max"}
+ASome2 == {"min", "balp1"}
 GAll == {"lt", "ok", "gt64", "ltetx", "lttx", "gtavail"}
 GOk == {"ok"}
 FAll == {"zero", "one", "ovf"}
@@ -53,10 +70,14 @@ ALSome == {"good", "bad"}
 \* ---- conformance universes (the real protocol numbers; the driver uses every number verbatim)
 U == 1000000
 BalReal(E, K) == [a \in A(E, K) |-> CASE a \in E -> 60 * U [] a \in K -> 5 * U [] a = "Q" -> 50 * U [] a = "Z" -> 1 * U [] OTHER -> 0]
+BalReal11 == BalReal(E1, K1)
+BalReal21 == BalReal(E2, K1)
 BalReal22 == BalReal(E2, K2)
 BalReal32 == BalReal(E3, K2)
 BalReal33 == BalReal(E3, K3)
 WqRealOf(E, K) == [k \in A(E, K) |-> IF k = "K1" THEN 2 * U ELSE 0]
+WqReal11 == WqRealOf(E1, K1)
+WqReal21 == WqRealOf(E2, K1)
 WqReal22 == WqRealOf(E2, K2)
 WqReal32 == WqRealOf(E3, K2)
 WqReal33 == WqRealOf(E3, K3)
